@@ -362,4 +362,59 @@ def run_layer_r(scratch, target=None):
     # other failing checks (Kani's own: overflow, pointer…) inside resolve
     fails = re.findall(r"Check \d+: ([^\n]*)\n\s*- Status: FAILURE\n\s*- Description: \"+([^\"\n]*)\"+\n\s*- Location: ([^\n]*)", out)
     res["other_failures"] = [f for f in fails if not f[1].startswith("R:")][:10]
+    # counterexamples: for every refuted assertion ask Kani for a concrete configuration
+    res["counterexamples"] = {}
+    if any(v == "FAILURE" for v in res["checks"].values()):
+        rc2, out2, err2, dt2 = run(["cargo", "kani", "-Z", "stubbing", "-Z", "concrete-playback", "--concrete-playback=print", "--harness", "resolve_contract"],
+                                   cwd=d, env={"CARGO_TARGET_DIR": os.path.join(scratch, "kani-target")}, timeout=3000)
+        res["wall_s"] += dt2
+        res["counterexamples"] = decode_playback(out2)
     return res
+
+
+ANY_ORDER = ["gapless", "num_values", "size_sel", "as_str", "as_str_mode", "Debug", "Display", "from_str", "from_str_mode", "FromStr", "FromStr_mode",
+             "into", "IntoStr", "Into", "iter", "iter_mode", "MAX", "MIN", "names", "next_back", "next", "range", "try_from", "TryFrom"]
+
+
+def decode_playback(out):
+    """{assertion description: configuration} from Kani's printed concrete-playback tests; the order of
+    the values is the order of the kani::any() calls in the harness (ANY_ORDER)"""
+    cex = {}
+    for blk in re.split(r"(?=/// Test generated for harness)", out):
+        m = re.search(r"/// Check for `\w+`: \"+([^\"\n]+)\"+", blk)
+        if not m or not m.group(1).startswith("R:") or m.group(1).startswith("R:cover:"):
+            continue
+        vals = [[int(x) for x in v.split(",") if x.strip()] for v in re.findall(r"vec!\[([0-9, ]*)\],", blk)]
+        if len(vals) < len(ANY_ORDER):
+            continue
+        raw = dict(zip(ANY_ORDER, vals))
+        b = lambda k: raw[k][0] % 2 == 1
+        cfg = {"gapless": b("gapless"), "num_values": int.from_bytes(bytes(raw["num_values"]), "little"),
+               "repr_size": [1, 2, 4, 8, 16][raw["size_sel"][0] % 5], "features": []}
+        modes = {"as_str": ["auto", "match", "table"], "from_str": ["auto", "match", "table"], "FromStr": ["auto", "match", "table"],
+                 "iter": ["auto", "range", "next_and_back", "table", "table_inline"]}
+        for f in ("as_str", "Debug", "Display", "from_str", "FromStr", "into", "IntoStr", "Into", "iter", "MAX", "MIN", "names", "next_back", "next", "range", "try_from", "TryFrom"):
+            if b(f):
+                if f in modes:
+                    mm = modes[f][raw[f + "_mode"][0] % len(modes[f])]
+                    cfg["features"].append(f if mm == "auto" else '%s(mode="%s")' % (f, mm))
+                else:
+                    cfg["features"].append(f)
+        cex[m.group(1)] = cfg
+    return cex
+
+
+def spec_from_config(cfg, name):
+    """a corpus enum realising a configuration found by Kani (shape, variant count x repr size, features)"""
+    size = cfg["repr_size"]
+    repr_ = {1: "u8", 2: "u16", 4: "u32", 8: "u64", 16: "u128"}[size]
+    n = cfg["num_values"]
+    small = n * size <= 8
+    if not small:
+        n = max(9 // size + 1, min(n, 12))
+    n = max(n, 1 if cfg["gapless"] else 2)
+    if repr_ == "u8":
+        n = min(n, 200)
+    discs = list(range(n)) if cfg["gapless"] else list(range(n - 1)) + [n + 3]
+    vs = corpus.mk_variants(discs, implicit_ok=False)
+    return corpus.EnumSpec(name, repr_, vs, list(cfg["features"]), ident="En", tags={"cex"})
